@@ -72,6 +72,13 @@ fn main()
         let mut last_snap = String::new();
         let mut last_reg: Vec<u64> = vec![];
         let mut broken = false;
+        // (B) independent reference: a FRESH Circuit object holding, as direct parameters, the values the cells had at each
+        // run, executing in ONE run everything since the last execute (ops of run 1 ++ ops of run 2 ++ ...) from the same
+        // generator stream.  execute = fresh start, reexecute = continuation, references read at each run <=> same result.
+        let mut cur_rng: Option<rand_hc::Hc128Rng> = None;
+        let mut hist_ops: Vec<String> = vec![];
+        let mut hist_seed = 0u64;
+        let mut hist_regs: Vec<Vec<u64>> = vec![];
         for _ in 0..ncalls
         {
             if broken { break; }
@@ -88,7 +95,10 @@ fn main()
                     }
                     let shots = if reexec { last_reg.len() } else { [1usize, 3, 10, 25][rng.below(4) as usize] };
                     let seed = rng.next();
-                    let mut r = rand_hc::Hc128Rng::seed_from_u64(seed);
+                    // a re-execution continues the generator stream of the run it continues
+                    let mut r = if reexec { cur_rng.take().unwrap_or_else(|| rand_hc::Hc128Rng::seed_from_u64(seed)) } else { rand_hc::Hc128Rng::seed_from_u64(seed) };
+                    let resolved: Vec<String> = ct.ops.iter().map(|op| resolve_text(op, &cells)).collect();
+                    if reexec { hist_ops.extend(resolved); } else { hist_ops = resolved; hist_seed = seed; hist_regs.clear(); }
                     q1tsim::verif::trace_start();
                     q1tsim::verif::draws_start();
                     let res = {
@@ -109,6 +119,7 @@ fn main()
                         let post = show_snapshot(&e.snapshot);
                         out.case(&req, &format!("ok | {} | {}", post, join(&e.cstate)));
                         pre_snap = post; pre_reg = e.cstate.clone();
+                        hist_regs.push(e.cstate.clone());
                     }
                     if trace.len() < ct.ops.len()
                     {
@@ -119,6 +130,36 @@ fn main()
                     }
                     executed = true;
                     last_snap = pre_snap; last_reg = pre_reg;
+                    cur_rng = Some(r);
+                    {
+                        let mut fresh = Circuit::new(ct.nq, ct.nc);
+                        let built = hist_ops.iter().all(|op| add_op(&mut fresh, op).is_ok());
+                        let verdict = if !built { "reference-not-built".to_string() } else {
+                            let mut fr = rand_hc::Hc128Rng::seed_from_u64(hist_seed);
+                            q1tsim::verif::trace_start();
+                            let ok = { let c = std::panic::AssertUnwindSafe(&mut fresh); let rr = std::panic::AssertUnwindSafe(&mut fr);
+                                std::panic::catch_unwind(move || { let std::panic::AssertUnwindSafe(c) = c; let std::panic::AssertUnwindSafe(rr) = rr;
+                                    c.execute_with(shots, rr, QuStateRepr::vector(c.nr_qbits(), shots)) }).ok() };
+                            let ftrace = q1tsim::verif::trace_take();
+                            match ok
+                            {
+                                Some(Ok(())) if ftrace.len() == hist_regs.len() && ftrace.iter().zip(hist_regs.iter()).any(|(e, r)| e.cstate != *r) => {
+                                    let j = ftrace.iter().zip(hist_regs.iter()).position(|(e, r)| e.cstate != *r).unwrap();
+                                    format!("differs register-after-op-{} object={} reference={}", j, join(&hist_regs[j]), join(&ftrace[j].cstate))
+                                },
+                                Some(Ok(())) => {
+                                    let freg = fresh.cstate().map(|a| a.to_vec()).unwrap_or_default();
+                                    let fsnap = fresh.verif_snapshot().map(|s| show_snapshot(&s)).unwrap_or_default();
+                                    if freg != last_reg { format!("differs register object={} reference={}", join(&last_reg), join(&freg)) }
+                                    else if fsnap != last_snap { "differs quantum-state".to_string() }
+                                    else { "same".to_string() }
+                                },
+                                _ => "reference-failed".to_string()
+                            }
+                        };
+                        out.case(&format!("prop | {} | {} {} | {} | {} | {}", if reexec { "reexecute-continues" } else { "execute-fresh" },
+                            ct.nq, ct.nc, shots, hist_seed, hist_ops.join(" ; ")), &verdict);
+                    }
                 },
                 4 | 5 | 6 => { let k = rng.below(NCELLS as u64) as usize; *cells[k].borrow_mut() = gate::gen_angle(&mut rng); },
                 _ => {
